@@ -109,8 +109,36 @@ func (d docGen) member() interface{} {
 	return m
 }
 
+// sizes around powers of two: thresholds in buffer management ("more than 16", "cap > 128")
+// are only reached by documents of those sizes
+var bigSizes = []int{17, 33, 65, 129, 130, 200, 257, 513}
+
+// bigDoc builds a wide document: an array (or an object holding one) with many elements.
+func (d docGen) bigDoc() interface{} {
+	n := bigSizes[rn(len(bigSizes))]
+	a := make([]interface{}, n)
+	kind := rn(3)
+	for i := range a {
+		switch kind {
+		case 0:
+			a[i] = d.num(float64(i % 7))
+		case 1:
+			a[i] = map[string]interface{}{"a": d.num(float64(i % 5)), "b": pick(strPalette)}
+		default:
+			a[i] = d.leaf()
+		}
+	}
+	if chance(50) {
+		return a
+	}
+	return map[string]interface{}{"list": a, "a": d.leaf(), "b": d.leaf()}
+}
+
 // doc builds a document of one of several shapes that the path generators aim at.
 func (d docGen) doc(trap bool) interface{} {
+	if rn(25) == 24 {
+		return d.bigDoc()
+	}
 	switch rn(6) {
 	case 0: // array of members
 		n := rn(7)
